@@ -27,7 +27,7 @@ TRUSTED = ["clap argument parsing"]
 def run(ck, F, E):
     P = "C15"
     # ---- (1) prompt path (shared rule) and analyzer path
-    common.edit_path_rules(ck, F, E, P)
+    common.edit_path_rules(ck, F, E, P, strict=False)
     run_ = get_fn(ck, F, "SourceFileAnalyzer::run")
     if run_ is not None:
         cs = run_.calls_to("Program::set_numbered_line")
